@@ -26,6 +26,7 @@ Routines and classes for creating priors and timeslices for use in tsdate
 
 import logging
 import os
+import tempfile
 from collections import defaultdict, namedtuple
 
 import numpy as np
@@ -264,7 +265,20 @@ class ConditionalCoalescentTimes:
         all_tips = np.arange(2, n + 1)
         prior_lookup_table[1:, 0] = all_tips / n
         prior_lookup_table[1:, 1] = conditional_coalescent_variance(n + 1)[all_tips]
-        np.savetxt(self.get_precalc_cache(n), prior_lookup_table)
+        # Write to a unique temporary file and atomically move it into place, so
+        # that an interrupted or concurrent write never leaves a partial cache file
+        filename = self.get_precalc_cache(n)
+        fd, tmp_filename = tempfile.mkstemp(dir=os.path.dirname(filename), suffix=".tmp")
+        os.close(fd)
+        try:
+            np.savetxt(tmp_filename, prior_lookup_table)
+            os.replace(tmp_filename, filename)
+        except BaseException:
+            try:
+                os.remove(tmp_filename)
+            except OSError:
+                pass
+            raise
         return prior_lookup_table
 
     def clear_precalculated_priors(self):
